@@ -585,3 +585,185 @@ Proof.
     - apply veq_spec in E2. apply Hiff in E2. apply veq_spec in E2. congruence. }
   rewrite E. apply core_relabel; assumption.
 Qed.
+
+(* ---------------------------------------------------------------------- *)
+(* C03: the corrected score *)
+
+Theorem core_true_identity Y X : length Y = length X -> (0 < length X)%nat ->
+  eval_R (core Y X true) = Hcond (displace Y X) X - Hcond Y X.
+Proof.
+  intros Hlen Hn.
+  assert (Hds : length (displace Y X) = length X) by (rewrite displace_length; exact Hlen).
+  rewrite (eval_core_true _ _ Hlen), (Hcond_c_Hp _ _ Hlen Hn).
+  rewrite (Hcond_pointwise (combine X (displace Y X)) (uvals X) (uvals Y)); try apply uvals_nodup.
+  2:{ rewrite map_fst_combine by (symmetry; exact Hds). apply uvals_incl. }
+  2:{ rewrite map_snd_combine by (symmetry; exact Hds). intros z Hz. apply uvals_in. apply (displace_incl _ _ z Hz). }
+  2:{ rewrite length_combine_eq by (symmetry; exact Hds). exact Hn. }
+  fold (Hp (combine X (displace Y X))).
+  rewrite (Hcond_pointwise_spec _ _ Hds Hn), (Hcond_pointwise_spec _ _ Hlen Hn). ring.
+Qed.
+
+Theorem corrected_identity Y X : length Y = length X -> (0 < length X)%nat -> Y <> X ->
+  eval_R (entry Y X true) = Hcond (displace Y X) X - Hcond Y X.
+Proof.
+  intros Hlen Hn Hne. rewrite selfpair_exact, (veq_false Y X Hne). cbn [andb negb].
+  apply core_true_identity; assumption.
+Qed.
+
+Theorem corrected_self Y : (0 < length Y)%nat -> eval_R (entry Y Y true) = H Y.
+Proof.
+  intros Hn. rewrite selfpair_exact, veq_refl. cbn [andb negb].
+  rewrite core_false_is_plugin by auto. apply plugin_self. exact Hn.
+Qed.
+
+(* constant feature *)
+Lemma constant_repeat a (l : list Z) : constant a l -> l = repeat a (length l).
+Proof.
+  induction l as [|x l IH]; intros Hc; [reflexivity|]. cbn [length repeat].
+  f_equal; [apply Hc; now left|apply IH; intros v Hv; apply Hc; now right].
+Qed.
+
+Lemma displace_const a Y X : constant a Y -> displace Y X = Y.
+Proof.
+  intros Hc. rewrite (constant_repeat a Y Hc) at 2.
+  rewrite (constant_repeat a (displace Y X)).
+  - rewrite displace_length. reflexivity.
+  - intros v Hv. apply Hc. apply (displace_incl Y X). exact Hv.
+Qed.
+
+Theorem corrected_const Y X a : length Y = length X -> (0 < length X)%nat -> constant a Y ->
+  eval_R (entry Y X true) = 0.
+Proof.
+  intros Hlen Hn Hc. rewrite selfpair_exact. destruct (veq Y X) eqn:E; cbn [andb negb].
+  - rewrite core_false_is_plugin by assumption. apply (plugin_const_l Y X a); assumption.
+  - rewrite core_true_identity by assumption. rewrite (displace_const a Y X Hc). ring.
+Qed.
+
+(* all-distinct feature *)
+Lemma where_eq_bounds v X : forall i j, In j (where_eq i v X) -> (i <= j < i + length X)%nat.
+Proof.
+  induction X as [|x r IH]; intros i j Hj; [contradiction|]. cbn [where_eq] in Hj. cbn [length].
+  destruct (Z.eqb x v).
+  - destruct Hj as [<-|Hj]; [lia|]. specialize (IH _ _ Hj). lia.
+  - specialize (IH _ _ Hj). lia.
+Qed.
+
+Lemma where_eq_nodup v X : forall i, NoDup (where_eq i v X).
+Proof.
+  induction X as [|x r IH]; intros i; [constructor|]. cbn [where_eq].
+  destruct (Z.eqb x v); [|apply IH]. constructor; [|apply IH].
+  intros Hin. apply where_eq_bounds in Hin. lia.
+Qed.
+
+Lemma NoDup_map_inj_on {A B} (F : A -> B) (l : list A) :
+  NoDup l -> (forall a b, In a l -> In b l -> F a = F b -> a = b) -> NoDup (map F l).
+Proof.
+  induction 1 as [|a l Hnin Hnd IH]; intros Hinj; [constructor|]. cbn [map]. constructor.
+  - intros Hin. apply in_map_iff in Hin. destruct Hin as [b [E Hb]].
+    assert (b = a) by (apply Hinj; [now right|now left|exact E]). subst. contradiction.
+  - apply IH. intros x y Hx Hy. apply Hinj; now right.
+Qed.
+
+Lemma shift_mod_inj (n k a b : nat) : (a < n)%nat -> (b < n)%nat -> ((a + k) mod n = (b + k) mod n)%nat -> a = b.
+Proof.
+  intros Ha Hb E. assert (Hn : n <> 0%nat) by lia.
+  pose proof (Nat.div_mod (a + k) n Hn) as Da. pose proof (Nat.div_mod (b + k) n Hn) as Db.
+  rewrite E in Da. set (qa := ((a + k) / n)%nat) in *. set (qb := ((b + k) / n)%nat) in *.
+  set (r := ((b + k) mod n)%nat) in *.
+  assert (qa = qb) by nia. subst qa. nia.
+Qed.
+
+Lemma alldistinct_joint Y X : length Y = length X -> NoDup Y ->
+  forall x y, In (x, y) (combine X Y) -> count_occ pair_dec (combine X Y) (x, y) = 1%nat.
+Proof.
+  intros Hlen Hnd x y Hin.
+  pose proof (count_pair_le_snd (combine X Y) x y) as Hle. rewrite (P_snd Y X Hlen) in Hle.
+  pose proof (proj1 (NoDup_count_occ Z.eq_dec Y) Hnd y).
+  assert ((1 <= count_occ pair_dec (combine X Y) (x, y))%nat) by (apply count_occ_In; exact Hin). lia.
+Qed.
+
+Lemma alldistinct_displaced Y X : length Y = length X -> NoDup Y ->
+  forall x y, In (x, y) (combine X (displace Y X)) -> count_occ pair_dec (combine X (displace Y X)) (x, y) = 1%nat.
+Proof.
+  intros Hlen Hnd x y Hin.
+  assert ((1 <= count_occ pair_dec (combine X (displace Y X)) (x, y))%nat) by (apply count_occ_In; exact Hin).
+  pose proof (spoof_counts X Y x y (eq_sym Hlen)) as E. cbv zeta in E. rewrite <- E in *.
+  set (k := count_occ Z.eq_dec X x) in *.
+  assert (Hnd' : NoDup (map (fun el => nth ((el + k) mod length Y) Y 0%Z) (where_eq 0 x X))).
+  { apply NoDup_map_inj_on; [apply where_eq_nodup|].
+    intros a b Ha Hb Eab. apply where_eq_bounds in Ha. apply where_eq_bounds in Hb.
+    assert (Hn : (0 < length Y)%nat) by lia.
+    apply (shift_mod_inj (length Y) k); try lia.
+    apply (proj1 (NoDup_nth Y 0%Z) Hnd); try (apply Nat.mod_upper_bound; lia). exact Eab. }
+  pose proof (proj1 (NoDup_count_occ Z.eq_dec _) Hnd' y). lia.
+Qed.
+
+(* when every occurring pair has multiplicity one, H(.|X) depends on X only *)
+Lemma Hp_joint_one (P : list (Z * Z)) :
+  (forall x y, In (x, y) P -> count_occ pair_dec P (x, y) = 1%nat) ->
+  Hp P = rsum (fun x => - / INR (length P) * ln (1 / INR (count_occ Z.eq_dec (map fst P) x))) (map fst P).
+Proof.
+  intros H1. unfold Hp. rewrite rsum_map. apply rsum_ext_in. intros [x y] Hin. cbn [fst snd].
+  unfold cXY, cX. cbv zeta. rewrite (H1 x y Hin). reflexivity.
+Qed.
+
+Theorem corrected_alldistinct Y X : length Y = length X -> (0 < length X)%nat -> NoDup Y -> Y <> X ->
+  eval_R (entry Y X true) = 0.
+Proof.
+  intros Hlen Hn Hnd Hne. rewrite (corrected_identity Y X Hlen Hn Hne).
+  assert (Hds : length (displace Y X) = length X) by (rewrite displace_length; exact Hlen).
+  rewrite (Hcond_pointwise_spec _ _ Hds Hn), (Hcond_pointwise_spec _ _ Hlen Hn).
+  rewrite (Hp_joint_one _ (alldistinct_joint Y X Hlen Hnd)), (Hp_joint_one _ (alldistinct_displaced Y X Hlen Hnd)).
+  rewrite (map_fst_combine X (displace Y X)) by (symmetry; exact Hds).
+  rewrite (map_fst_combine X Y) by (symmetry; exact Hlen).
+  rewrite !length_combine_eq by (symmetry; assumption). ring.
+Qed.
+
+(* ---------------------------------------------------------------------- *)
+(* the code before fix d3e3a97 (sum-based self-pair test): the shortcut fires on a non-identical pair and
+   invariance under relabelling fails *)
+
+Definition wY : list Z := [0; 1; 0; 1; 2; 2; 0; 1]%Z.
+Definition wX : list Z := [1; 0; 1; 0; 2; 2; 1; 0]%Z.
+
+Lemma ln_div a b : 0 < a -> 0 < b -> ln (a / b) = ln a - ln b.
+Proof. intros Ha Hb. unfold Rdiv. rewrite ln_mult, ln_Rinv by (try apply Rinv_0_lt_compat; assumption). lra. Qed.
+
+Lemma witness_gap : eval_R (core wY wX true) < eval_R (core wY wX false).
+Proof.
+  assert (Et : core wY wX true = mkT 8 [3; 3; 2]%Z [mkS 3 [0; 3; 0]%Z [2; 0; 1]%Z; mkS 3 [3; 0; 0]%Z [0; 2; 1]%Z; mkS 2 [0; 0; 2]%Z [1; 1; 0]%Z] true)
+    by (vm_compute; reflexivity).
+  assert (Ef : core wY wX false = mkT 8 [3; 3; 2]%Z [mkS 3 [0; 3; 0]%Z [2; 0; 1]%Z; mkS 3 [3; 0; 0]%Z [0; 2; 1]%Z; mkS 2 [0; 0; 2]%Z [1; 1; 0]%Z] false)
+    by (vm_compute; reflexivity).
+  rewrite Et, Ef. unfold eval_R, cond_entropy, full_entropy.
+  cbn [t_n t_classes t_strata t_corr s_cnt s_real s_spoof rsum fold_right Z.eqb].
+  rewrite !ln_div by lra.
+  assert (E8 : ln 8 = 3 * ln 2).
+  { replace 8 with (2 * (2 * 2)) by lra. rewrite !ln_mult by lra. lra. }
+  assert (H43 : ln 3 < 2 * ln 2).
+  { replace (2 * ln 2) with (ln 4) by (replace 4 with (2 * 2) by lra; rewrite ln_mult by lra; lra).
+    apply ln_increasing; lra. }
+  rewrite E8, ln_1. lra.
+Qed.
+
+Theorem prefix_refuted :
+  exists (Y X : list Z) (g : Z -> Z),
+    length Y = length X /\ Y <> X /\ inj_on g X /\
+    entry_old Y X true = core Y X false /\                       (* self-pair shortcut taken although Y <> X *)
+    entry_old Y (map g X) true = core Y (map g X) true /\        (* ... and not taken after recoding X *)
+    eval_R (entry_old Y (map g X) true) < eval_R (entry_old Y X true).
+Proof.
+  exists wY, wX, (Z.add 10). repeat split.
+  - discriminate.
+  - intros a b _ _ E. lia.
+  - assert (E1 : entry_old wY wX true = core wY wX false) by (vm_compute; reflexivity).
+    assert (E2 : entry_old wY (map (Z.add 10) wX) true = core wY (map (Z.add 10) wX) true) by (vm_compute; reflexivity).
+    rewrite E1, E2.
+    assert (E3 : eval_R (core wY (map (Z.add 10) wX) true) = eval_R (core (map (fun z => z) wY) (map (Z.add 10) wX) true))
+      by (rewrite map_id; reflexivity).
+    rewrite E3, core_relabel; [apply witness_gap|reflexivity|simpl; lia|intros a b _ _ E; exact E|intros a b _ _ E; lia].
+Qed.
+
+(* the repaired entry point treats the same pair as an ordinary one *)
+Lemma witness_new : entry wY wX true = core wY wX true.
+Proof. vm_compute. reflexivity. Qed.
